@@ -1037,7 +1037,17 @@ func first(a, _ []byte) []byte { return a }
 // ---------------------------------------------------------------------------
 // Thin public wrappers (rung 1: safety and purity).
 
-//@ func (*{alpha,unsigned,signed,float,compound}SortedTree[K,V]).restoreKey
+//@ func (*alphaSortedTree[K,V]).restoreKey
+//@   opt kind alpha
+//@   opt bind K=[]byte
+//@   opt casts on
+//@   opt extent on
+//@   requires t != nil && leafT() == typeid(alphaLeafNode) && ptr != nil && inT(ptr) && allocated(ptr) && !pooled(ptr) && atype(ptr) == leafT()
+//@   requires reveal(ptr) && LeafOK_alpha(ptr)
+//@   ensures[pure] frame()
+//@   assigns B
+
+//@ func (*{unsigned,signed,float,compound}SortedTree[K,V]).restoreKey
 //@   opt kind $KIND
 //@   opt casts on
 //@   opt extent on
@@ -1048,6 +1058,7 @@ func first(a, _ []byte) []byte { return a }
 
 //@ func (*collationSortedTree[K,V]).restoreKey
 //@   opt kind collation
+//@   opt bind K=string
 //@   opt casts on
 //@   opt extent on
 //@   requires t != nil && leafT() == typeid(collateLeafNode) && ptr != nil && inT(ptr) && allocated(ptr) && !pooled(ptr) && atype(ptr) == leafT()
